@@ -168,7 +168,7 @@ def check(ctx):
         "result must equal model parse_terms and must mean exactly the written relation, decided for all real points by "
         "decomposing the relation over the sign patterns of its absolute values and exact rational LP; each string is parsed "
         "twice. non-trivial = the string is accepted or raises the convexity error; distinct by string")
-    proved = ctx.prove("props/C09.v", ["proofs/SyntaxFacts.v", "proofs/GrammarFacts.v"])
+    proved = ctx.prove("props/C09.v", ["proofs/SyntaxFacts.v", "proofs/GrammarFacts.v", "proofs/ParseAllFacts.v"])
     ctx.build(["model/ParseAll.vo"])
     # (a) grammar
     g = gc.selftest(maxlen=3 if ctx.quick else 4, nrandom=800 if ctx.quick else 4000, seed=ctx.seed, verbose=False,
@@ -197,11 +197,24 @@ def check(ctx):
         ast = sc.gen_expr(rng)
         if ast[0] != "EEq" and len(ast[1]) < 2:
             continue
+        divzero = False
         try:
             meaning_cells(ast)
         except ZeroDivisionError:
-            continue
+            divzero = True
         base = sc.ast_to_string(ast)
+        if divzero:
+            # a constant expression divides by zero: a malformed constraint, to be reported as the syntax error
+            r1 = impl(base)
+            seen.add(base)
+            hist["division_by_zero"] = hist.get("division_by_zero", 0) + 1
+            if r1[0] == "ok" or r1[1][0] != 3:
+                key = "parse:escape:" + r1[1][1] if r1[0] != "ok" and r1[1][0] == 6 else "parse:division_by_zero_not_rejected"
+                ctx.violation(key, "a constraint whose constant arithmetic divides by zero is not reported as a syntax error",
+                              {"string": base, "outcome": str(r1)[:300]})
+            exprs.append(f"agree (terms_close 0) (parse_terms {gc.coq_string(base)}) " + (f"(Exp {cf.terms(r1[1])})" if r1[0] == "ok" else f"(ExpErr {cf.nat(r1[1][0])})"))
+            info.append((base, r1))
+            continue
         results = []
         for s in [base] + [respell(rng, base) for _ in range(2)]:
             r1, r2 = impl(s), impl(s)
